@@ -2,6 +2,7 @@ package main
 
 import (
 	"fmt"
+	"os"
 	"sort"
 )
 
@@ -443,6 +444,16 @@ func dyadic(r *Rng, max int) float64 {
 	return grain * float64(r.Intn(max+1))
 }
 
+// growN > 1: the escalated search that bin/check runs only after a proof obligation or the correspondence broke and
+// the everyday search found no failing input (environment variable VH_GROW)
+var growN = func() int {
+	g := 1
+	if v := os.Getenv("VH_GROW"); v != "" {
+		fmt.Sscan(v, &g)
+	}
+	return g
+}()
+
 func genCase(r *Rng, o GenOpts) Case {
 	c := Case{}
 	grain = 8.0
@@ -454,6 +465,9 @@ func genCase(r *Rng, o GenOpts) Case {
 	}
 	defer func() { grain = 8.0 }()
 	kind := o.Kinds[r.Intn(len(o.Kinds))]
+	if growN > 1 {
+		o.MaxN = o.MaxN*growN + 4 // escalated search (VH_GROW): larger inputs than the everyday distribution
+	}
 	n := 2 + r.Intn(o.MaxN-1)
 	es, n := genGraph(r, kind, n)
 	if o.Simple {
